@@ -287,7 +287,7 @@ example : isPrefix (C07_witnessA.spec false "") (C07_witnessB.spec false "") tru
 /-- **`prefix_errors` reports nothing exactly when `flatten_up_to` succeeds** — for every prefix tree without
 registered custom nodes (leaves, None, tuple, list, deque, dict / OrderedDict / defaultdict in either dict-order
 mode, unregistered namedtuple and struct-sequence classes, any nesting), every full tree, every registry,
-`none_is_leaf` and namespace, no predicate.  *Partial*: the full statement also covers prefix trees with
+`none_is_leaf` and namespace, no predicate, with no assumption on the registry or on flatten functions.  *Partial* (the full statement under assumptions is `C07_prefix_errors_agree` below): it also covers prefix trees with
 registered custom nodes (there the Python side goes through `tree_flatten_one_level`, which additionally
 validates what the flatten function of the *full* tree's node returns, where `flatten_up_to` does not look at
 its entries: equality then needs well-behaved flatten functions and a consistent registry); those are
@@ -325,5 +325,49 @@ example :
     okIs (prefixErrors cfg p (.list [.dict [(.str "a", .list [.none]), (.str "b", .list [])]]))
       [(.types, [.int 0, .str "a"])] = true := by decide
 
+
+
+/-- **the three implementations agree**: for every pair of well-formed trees whose registered classes have
+well-behaved flatten functions (`tame`: the 2- or 3-tuple with as many entries as children), a registry that files
+every registration under its own class, no predicate: `prefix_errors(p, t)` reports nothing ⇔
+`tree_structure(p).flatten_up_to(t)` succeeds ⇔ `tree_structure(p).is_prefix(tree_structure(t))` — every node
+kind, registered custom nodes included, any nesting, both dict-order modes, every namespace and `none_is_leaf`.
+(Where a flatten function of the *full* tree misbehaves the first two differ by design of the code:
+`tree_flatten_one_level` validates its return value, `flatten_up_to` never looks at its entries — the
+correspondence stream runs both on such trees.) -/
+theorem C07_prefix_errors_agree (cfg : Cfg) (hp : cfg.pred = Option.none) (hreg : cfg.reg.OK) (p t : PyObj)
+    (hwf : p.wf = true) (htp : p.tame = true) (htt : t.tame = true) (ls : List PyObj) (sp : Spec)
+    (h : flatten cfg p = .ok (ls, sp)) (hns : sp.ns = cfg.ns) :
+    prefixErrors cfg p t = .ok [] ↔ ∃ subtrees, flattenUpTo cfg.reg sp t = .ok subtrees := by
+  obtain ⟨e, _⟩ := flatten_shapeOf cfg hp p hwf ls sp h
+  obtain ⟨w, _⟩ := wg cfg (!cfg.insertionOrdered) p hwf
+  rw [e, hns, flattenUpTo_enc cfg.reg _ w]
+  exact pe_full cfg (!cfg.insertionOrdered) hp hreg p htp [] t htt
+
+theorem C07_three_way (cfg : Cfg) (hp : cfg.pred = Option.none) (hreg : cfg.reg.OK) (p t : PyObj)
+    (hpw : p.wf = true) (htw : t.wf = true) (htp : p.tame = true) (htt : t.tame = true)
+    (lp lt : List PyObj) (sp st : Spec)
+    (h1 : flatten cfg p = .ok (lp, sp)) (h2 : flatten cfg t = .ok (lt, st)) (hns : sp.ns = cfg.ns) :
+    (prefixErrors cfg p t = .ok [] ↔ ∃ subtrees, flattenUpTo cfg.reg sp t = .ok subtrees) ∧
+    ((∃ subtrees, flattenUpTo cfg.reg sp t = .ok subtrees) ↔ isPrefix sp st false = .ok true) := by
+  refine ⟨C07_prefix_errors_agree cfg hp hreg p t hpw htp htt lp sp h1 hns, ?_⟩
+  have := C07_flatten_up_to_agrees_with_is_prefix cfg hp p t hpw htw lp lt sp st h1 h2 hns
+  rw [← this]
+  cases flattenUpTo cfg.reg sp t <;> simp [okB]
+
+/-- non-vacuity with a registered class: equal metadata and children match; different metadata is one `metadata`
+error at the node; an instance of another class one `types` error -/
+def C07_demoCfg : Cfg :=
+  { reg := { global := [(0, 0, ⟨7, 0, 0, .flattened, .named⟩)], named := [] } }
+
+example :
+    let cfg := C07_demoCfg
+    let p : PyObj := .tuple [.user 0 (some (.int 1)) .ok [.leaf 0 1, .list [.leaf 0 2]]]
+    cfg.reg.okB = true ∧ p.tame = true ∧ p.wf = true ∧
+    okIs (prefixErrors cfg p (.tuple [.user 0 (some (.int 1)) .ok [.none, .list [.tuple []]]])) [] = true ∧
+    okIs (prefixErrors cfg p (.tuple [.user 0 (some (.int 2)) .ok [.none, .list [.tuple []]]]))
+      [(.metadata, [.int 0])] = true ∧
+    okIs (prefixErrors cfg p (.tuple [.user 0 (some (.int 1)) .ok [.none, .tuple []]]))
+      [(.types, [.int 0, .str "c1"])] = true := by decide
 
 end Optree
